@@ -7,7 +7,13 @@ use crate::vm::environment::LexicalEnvironment;
 use crate::{vector_view, env_view};
 /// heap cells a continuation / a code object refers to
 pub uninterp spec fn cont_kid(c: Continuation, k: int) -> bool;
-pub uninterp spec fn lambda_kid(l: Lambda, k: int) -> bool;
+/// a code object refers to whatever its bytecode cells, its formal-argument cells and the symbols of its environment map refer to
+pub uninterp spec fn envmap_view(m: crate::vm::environment::EnvironmentMap) -> Seq<(VCell, crate::vm::environment::BindingSource)>;
+pub assume_specification [crate::vm::environment::EnvironmentMap::get_map] (m: &crate::vm::environment::EnvironmentMap) -> (r: &[(VCell, crate::vm::environment::BindingSource)])
+    ensures r@ == envmap_view(*m);
+pub open spec fn lambda_kid(l: Lambda, k: int) -> bool {
+    seq_kid(l.bc@, k) || seq_kid(l.args@, k) || exists|i: int| 0 <= i < envmap_view(l.envmap).len() && #[trigger] vkid(envmap_view(l.envmap)[i].0, k)
+}
 /// heap cells a by-value cell refers to directly (what mark_vcell must follow); recursive through
 /// vector payloads, hence axiomatised rather than defined
 pub uninterp spec fn vkid(v: VCell, k: int) -> bool;
@@ -123,8 +129,24 @@ MARK_FNS = {
         'ensures': [(M, 'final(self).mark_ok(*old(self))'), (M, PRESERVES), (M, MONO), (M, 'final(self).all_marked(|k: int| cont_kid(*cont, k))')],
     },
     'impl Heap::mark_lambda': {
-        'props': M, 'trusted': True, 'requires': MREQ,
+        'props': M + ['C06'], 'requires': MREQ,
+        'attrs': '#[verifier::exec_allows_no_decreases_clause]',
         'ensures': [(M, 'final(self).mark_ok(*old(self))'), (M, PRESERVES), (M, MONO), (M, 'final(self).all_marked(|k: int| lambda_kid(*lambda, k))')],
+        'body_start': 'proof { lemma_mark_refl(*old(self)); }',
+        'loops': {
+            0: '''invariant self.mark_ok(*old(self)),
+                    forall|j: int, k: int| 0 <= j < iter.index@ && #[trigger] vkid(lambda.bc@[j], k) && 0 <= k < old(self).len() ==> self.marked(k),''',
+            1: '''invariant self.mark_ok(*old(self)),
+                    forall|j: int, k: int| 0 <= j < lambda.bc@.len() && #[trigger] vkid(lambda.bc@[j], k) && 0 <= k < old(self).len() ==> self.marked(k),
+                    forall|j: int, k: int| 0 <= j < iter.index@ && #[trigger] vkid(lambda.args@[j], k) && 0 <= k < old(self).len() ==> self.marked(k),''',
+            2: '''invariant self.mark_ok(*old(self)),
+                    forall|j: int, k: int| 0 <= j < lambda.bc@.len() && #[trigger] vkid(lambda.bc@[j], k) && 0 <= k < old(self).len() ==> self.marked(k),
+                    forall|j: int, k: int| 0 <= j < lambda.args@.len() && #[trigger] vkid(lambda.args@[j], k) && 0 <= k < old(self).len() ==> self.marked(k),
+                    forall|j: int, k: int| 0 <= j < iter.index@ && #[trigger] vkid(envmap_view(lambda.envmap)[j].0, k) && 0 <= k < old(self).len() ==> self.marked(k),''',
+        },
+        'loop_count': 3,
+        'loop_iter': {0: 'iter', 1: 'iter', 2: 'iter'},
+        'body_end': PRES_PROOF,
     },
     'impl Heap::mark': {
         'props': M + ['C06'], 'requires': MREQ,
